@@ -109,6 +109,7 @@ int v_pthread_mutexattr_settype(pthread_mutexattr_t *, int);
 int v_pthread_mutex_init(pthread_mutex_t *, const pthread_mutexattr_t *);
 int v_pthread_mutex_lock(pthread_mutex_t *);
 int v_pthread_mutex_unlock(pthread_mutex_t *);
+int v_sched_yield(void);
 int v_pthread_atfork(void (*)(void), void (*)(void), void (*)(void));
 #define pthread_self(...)              v_pthread_self(__VA_ARGS__)
 #define pthread_equal(...)             v_pthread_equal(__VA_ARGS__)
@@ -119,3 +120,4 @@ int v_pthread_atfork(void (*)(void), void (*)(void), void (*)(void));
 #define pthread_mutex_lock(...)        v_pthread_mutex_lock(__VA_ARGS__)
 #define pthread_mutex_unlock(...)      v_pthread_mutex_unlock(__VA_ARGS__)
 #define pthread_atfork(...)            v_pthread_atfork(__VA_ARGS__)
+#define sched_yield(...)               v_sched_yield(__VA_ARGS__)
